@@ -42,12 +42,16 @@ theorem nc08c_empty_indexed_field :
   refine ⟨rfl, rfl, ?_, rfl, rfl⟩
   intro h; have := h.1; simp at this
 
-/-- NC08d (open): `Session.get_spans(fields=(f0, f1, f2))` ignores `f2`; a single entry raises IndexError. -/
+/-- NC08d (repaired in /repo; the as-found variant is kept): `Session.get_spans(fields=(f0, f1, f2))` ignored `f2`, a single
+    entry raised IndexError. The repaired variant returns the spans of the zipped rows in both cases. -/
 theorem nc08d_third_field_ignored :
-    sessionGetSpansFields .repaired [.numeric [1, 1, 2, 2], .numeric [1, 1, 2, 2], .numeric [1, 2, 2, 3]] = .ok [0, 2, 4] ∧
-    sessionGetSpansArrays .repaired [[1, 1, 2, 2], [1, 1, 2, 2], [1, 2, 2, 3]] = .ok [0, 2, 4] ∧
+    sessionGetSpansFields .asFound [.numeric [1, 1, 2, 2], .numeric [1, 1, 2, 2], .numeric [1, 2, 2, 3]] = .ok [0, 2, 4] ∧
+    sessionGetSpansArrays .asFound [[1, 1, 2, 2], [1, 1, 2, 2], [1, 2, 2, 3]] = .ok [0, 2, 4] ∧
     spans neq (jointRows [[1, 1, 2, 2], [1, 1, 2, 2], [1, 2, 2, 3]] 4) = [0, 1, 2, 3, 4] ∧
     getSpansForMultiFields .repaired [[1, 1, 2, 2], [1, 1, 2, 2], [1, 2, 2, 3]] = .ok [0, 1, 2, 3, 4] ∧
-    sessionGetSpansFields .repaired [.numeric [1, 1, 2]] = .error (.oob "fields[1]") := ⟨rfl, rfl, rfl, rfl, rfl⟩
+    sessionGetSpansFields .asFound [.numeric [1, 1, 2]] = .error (.oob "fields[1]") ∧
+    sessionGetSpansFields .repaired [.numeric [1, 1, 2, 2], .numeric [1, 1, 2, 2], .numeric [1, 2, 2, 3]] = .ok [0, 1, 2, 3, 4] ∧
+    sessionGetSpansArrays .repaired [[1, 1, 2, 2], [1, 1, 2, 2], [1, 2, 2, 3]] = .ok [0, 1, 2, 3, 4] ∧
+    sessionGetSpansFields .repaired [.numeric [1, 1, 2]] = .ok [0, 2, 3] := ⟨rfl, rfl, rfl, rfl, rfl, rfl, rfl, rfl⟩
 
 end Exetera.Witness.C08
